@@ -327,6 +327,10 @@ class NetworkInterfaceBuffered : public NetworkInterface {
       // construct message
       vTy vec;
       vec.reserve(len + num);
+      // count the aggregated message before un-counting its parts: otherwise
+      // inflightSends is transiently 0 while a message is still to be sent,
+      // and anyPendingSends() tells the termination detector this host is idle
+      ++inflightSends;
       // go out of our way to avoid locking out senders when making messages
       lg.lock();
       do {
@@ -345,7 +349,6 @@ class NetworkInterfaceBuffered : public NetworkInterface {
         messages.pop_front();
         --inflightSends;
       } while (vec.size() < len + num);
-      ++inflightSends;
       numBytes -= len;
 #else
       uint32_t tag = messages.front().tag;
